@@ -52,7 +52,8 @@ class Pipe:
         _t, item = self.q.popleft()
         if self.coalesce is not None and not callable(item):
             now = self.loop.time()
-            while self.q and self.q[0][0] <= now and not callable(self.q[0][1]) and self.coalesce():
+            # (a read stays below half the host's receive buffer: residue of one frame + one read never reaches the 1 KB bound of C02's quantifier)
+            while self.q and self.q[0][0] <= now and not callable(self.q[0][1]) and len(item) + len(self.q[0][1]) <= 512 and self.coalesce():
                 item = item + self.q.popleft()[1]
                 self.coalesced += 1
         try:
